@@ -356,6 +356,7 @@ func checkAuthorize(g *goPartial) authResult {
 		exhausted bool   // inner loop was left through exhaustion (RangeLoop -> RangeDone)
 		brokeOut  bool   // inner loop was left otherwise
 		assigned  string // variables holding the callback's error, comma separated
+		pending   bool   // the callback was invoked and its error not yet compared with nil
 	}
 	type key struct {
 		b *cfg.Block
@@ -383,10 +384,17 @@ func checkAuthorize(g *goPartial) authResult {
 			// next outer iteration: explored separately from a fresh state below
 			return
 		}
+		if b == innerLoop && s.pending {
+			viol = g.site(authAssign.Pos()) + ": the loop over the list's checks can move on (or finish) on a path on which the error returned by the authorization callback was never compared with nil: a refusal on that path counts as an approval"
+			return
+		}
 		// interpret nodes
 		for _, n := range b.Nodes {
 			switch x := n.(type) {
 			case *ast.AssignStmt:
+				if x == authAssign {
+					s.pending = true
+				}
 				if len(x.Lhs) == 1 && len(x.Rhs) == 1 {
 					if l, ok := x.Lhs[0].(*ast.Ident); ok {
 						if rv, ok := x.Rhs[0].(*ast.Ident); ok {
@@ -450,6 +458,12 @@ func checkAuthorize(g *goPartial) authResult {
 						continue
 					}
 				}
+				ast.Inspect(cond, func(n ast.Node) bool {
+					if be, ok := n.(*ast.BinaryExpr); ok && (be.Op == token.NEQ || be.Op == token.EQL) && exprString(be.X) == errVar && exprString(be.Y) == "nil" {
+						ns.pending = false
+					}
+					return true
+				})
 				// auth error edge?
 				if be, ok := stripParens(cond).(*ast.BinaryExpr); ok {
 					if exprString(be.X) == errVar && exprString(be.Y) == "nil" {
